@@ -450,8 +450,12 @@ func Gen(r *core.Rand, sz Size) *Model {
 // interleave merges groups in one of several row orders: grouped, round-robin,
 // fully shuffled, reversed, or blocks split around other groups.
 func interleave[T any](r *core.Rand, groups [][]T) []T {
+	return interleaveMode(r, groups, r.Intn(5))
+}
+
+func interleaveMode[T any](r *core.Rand, groups [][]T, mode int) []T {
 	var out []T
-	switch r.Intn(5) {
+	switch mode {
 	case 0: // grouped, in group order, rows in generated order
 		for _, g := range groups {
 			out = append(out, g...)
@@ -502,4 +506,65 @@ func (m *Model) ShapeSig() string {
 	}
 	return fmt.Sprintf("a%d r%d s%d p%d t%d c%d d%d sp%d tr%d f%d st%d tz=%s", len(m.Agencies), len(m.Routes), len(m.Stops), parents,
 		len(m.Transfers), len(m.Calendar), len(m.CalDates), len(m.ShapePts), len(m.Trips), len(m.Frequencies), len(m.StopTimes), m.Agencies[0].TZ)
+}
+
+// RowOrders names the row orders Reorder can produce for stop_times.txt and shapes.txt.
+var RowOrders = []string{"as-generated", "grouped", "round-robin", "shuffled", "reversed", "split-blocks", "sorted-by-sequence", "reverse-sorted"}
+
+// Reorder returns a copy of the model whose stop_times and shape point rows are
+// permuted in the given order (a pure permutation of rows; nothing else changes).
+func Reorder(m *Model, order string, r *core.Rand) *Model {
+	n := *m
+	byTrip := make([][]StopTime, len(m.Trips))
+	for _, st := range m.StopTimes {
+		byTrip[st.Trip] = append(byTrip[st.Trip], st)
+	}
+	shapeOrder := []string{}
+	byShape := map[string][]ShapePt{}
+	for _, p := range m.ShapePts {
+		if _, ok := byShape[p.Shape]; !ok {
+			shapeOrder = append(shapeOrder, p.Shape)
+		}
+		byShape[p.Shape] = append(byShape[p.Shape], p)
+	}
+	shapeGroups := make([][]ShapePt, 0, len(shapeOrder))
+	for _, id := range shapeOrder {
+		shapeGroups = append(shapeGroups, byShape[id])
+	}
+	mode := -1
+	switch order {
+	case "as-generated":
+		return &n
+	case "grouped":
+		mode = 0
+	case "round-robin":
+		mode = 1
+	case "shuffled":
+		mode = 2
+	case "reversed":
+		mode = 3
+	case "split-blocks":
+		mode = 4
+	case "sorted-by-sequence", "reverse-sorted":
+		for _, g := range byTrip {
+			g := g
+			sortSlice(g, func(a, b StopTime) bool { return (a.Seq < b.Seq) == (order == "sorted-by-sequence") })
+		}
+		for _, g := range shapeGroups {
+			g := g
+			sortSlice(g, func(a, b ShapePt) bool { return (a.Seq < b.Seq) == (order == "sorted-by-sequence") })
+		}
+		mode = 0
+	}
+	n.StopTimes = interleaveMode(r, byTrip, mode)
+	n.ShapePts = interleaveMode(r, shapeGroups, mode)
+	return &n
+}
+
+func sortSlice[T any](xs []T, less func(a, b T) bool) {
+	for i := 1; i < len(xs); i++ {
+		for j := i; j > 0 && less(xs[j], xs[j-1]); j-- {
+			xs[j], xs[j-1] = xs[j-1], xs[j]
+		}
+	}
 }
